@@ -487,6 +487,9 @@ func OracleC11Settings(w *World, h *History) {
 	if term != nil && (term.Res.Err == nil || (term.Op == OpRecv && term.Res.Err == io.EOF)) {
 		w.AddViolation("C11", "malformed-settings-accepted", fmt.Sprintf("settings exchange '%s' is malformed or has no common revision, but an RPC completed OK", sc.name), det, 0)
 	}
+	if sc.rpcRan {
+		w.AddViolation("C11", "proceeded-without-settings", fmt.Sprintf("settings exchange '%s' never completed, but the client put a new_stream frame (revision %d) on the tunnel", sc.name, sc.rpcRev), det, 0)
+	}
 	if sc.started && sc.chanDone && sc.rpcTook > 0 {
 		w.AddViolation("C11", "negotiation-hang", fmt.Sprintf("settings exchange '%s': an RPC on the failed tunnel took %v of virtual time to fail", sc.name, sc.rpcTook), det, 0)
 	}
